@@ -183,8 +183,22 @@ void cli_init(void)
  */
 void cli_fini(void)
 {
+    int i;
+
     /* destroy clients */
     list_destroy(cli_clients);
+
+    /* stop listening */
+    for (i = 0; i < listen_fds_len; i++) {
+        if (listen_fds[i] != NO_FD) {
+            (void)close(listen_fds[i]);
+            listen_fds[i] = NO_FD;
+        }
+    }
+    if (listen_fds)
+        xfree(listen_fds);
+    listen_fds = NULL;
+    listen_fds_len = 0;
 }
 
 /*
